@@ -17,8 +17,9 @@
     sendV w       `vCh <- vs`
     workerExit w  `range mCh` ends because `mCh` is closed: `return nil`
     senderWait    `mg.Wait()` returns (all workers returned): `mctx` is cancelled,
-                  deferred `close(vCh)`, the sender returns the first worker
-                  error, else `ctx.Err()`
+                  the sender's return value is fixed: the first worker error,
+                  else `ctx.Err()` as it is now
+    closeV        the deferred `close(vCh)`; the sender returns
     collect       the collector receives one result from `vCh`
     collectorEnd  `range vCh` ends because `vCh` is closed and drained
     cancelParent  the caller cancels its Context (any time)
@@ -38,7 +39,7 @@ inductive WPhase where
 deriving DecidableEq, Repr, Inhabited
 
 inductive SPhase where
-  | sending | waiting | done
+  | sending | waiting | closing | done
 deriving DecidableEq, Repr, Inhabited
 
 structure State where
@@ -81,6 +82,7 @@ inductive Op where
   | sendV (w : Nat)
   | workerExit (w : Nat)
   | senderWait
+  | closeV
   | collect
   | collectorEnd
   | cancelParent
@@ -143,10 +145,13 @@ def step (s : State) : Op → State × Out
     | _ => (s, .disabled)
   | .senderWait =>
     if s.sender = .waiting ∧ allReturned s.workers = true then
-      if s.vCloses = 0 then
-        ({ s with sender := .done, cancelled := true, vCloses := 1,
-                  senderErr := s.failed || s.parentCancelled }, .ok)
-      else ({ s with sender := .done, cancelled := true, vCloses := s.vCloses + 1, panicked := true }, .panic)
+      ({ s with sender := .closing, cancelled := true,
+                senderErr := s.failed || s.parentCancelled }, .ok)
+    else (s, .disabled)
+  | .closeV =>
+    if s.sender = .closing then
+      if s.vCloses = 0 then ({ s with sender := .done, vCloses := 1 }, .ok)
+      else ({ s with sender := .done, vCloses := s.vCloses + 1, panicked := true }, .panic)
     else (s, .disabled)
   | .collect =>
     match s.collectorDone, s.buf with
@@ -190,8 +195,9 @@ def sumW : List WPhase → Nat
   | w :: ws => wWeight w + sumW ws
 
 def sWeight : SPhase → Nat
-  | .sending => 2
-  | .waiting => 1
+  | .sending => 3
+  | .waiting => 2
+  | .closing => 1
   | .done => 0
 
 def measure (s : State) : Nat :=
